@@ -96,7 +96,8 @@ async def history(in_protocol=True):
                 trace.append(("reschedule", name))
             elif act < 0.4 and len(jobs) < 6:
                 name = f"/step/0.{len(jobs)}"
-                cores, mem = rng.choice([1, 2, 3]), rng.choice([256, 1024, 2048])
+                # (now and then a request that the location can NEVER satisfy, also as the very first one: it stays waiting)
+                cores, mem = rng.choice([1, 2, 3, 3, 6]), rng.choice([256, 1024, 2048, 2048, 8192])
                 req = CWLHardwareRequirement(cwl_version="v1.2", cores=cores, memory=mem, tmpdir=1, outdir=1)
                 job = Job(name=name, workflow_id=0, inputs={}, input_directory=None, output_directory=None, tmp_directory=None)
                 jobs[name] = {"cores": cores, "mem": mem, "status": Status.WAITING}
@@ -346,16 +347,18 @@ async def stacked_history(force_unstacked=False):
             targets += [Target(deployment=DeploymentConfig(name="host-dep", type="local", config={}), workdir=workdir)] * (3 if force_unstacked else 1)
         ctx.deployment_manager.deployments_map.update(deployments)
         sched = ctx.scheduler
-        req = CWLHardwareRequirement(cwl_version="v1.2", cores=1, memory=10, tmpdir=0, outdir=0)
-        jobs, pending, trace = {}, {}, []
+        jobs, pending, trace, need = {}, {}, [], {}
         for step in range(rng.randint(4, 14)):
             if rng.random() < 0.55 and len(jobs) < 8:
                 name = f"/step/0.{len(jobs)}"
                 job = Job(name=name, workflow_id=0, inputs={}, input_directory=workdir, output_directory=workdir, tmp_directory=workdir)
                 jobs[name] = Status.WAITING
                 tg = rng.choice(targets)
+                # (some requests need more than an inner level will ever have, also as the first request that level sees)
+                need[name] = rng.choice([1, 1, 1, 2, 3])
+                req = CWLHardwareRequirement(cwl_version="v1.2", cores=need[name], memory=10, tmpdir=0, outdir=0)
                 pending[name] = asyncio.create_task(sched.schedule(job, BindingConfig(targets=[tg]), req))
-                trace.append(("schedule", name, tg.deployment.name))
+                trace.append(("schedule", name, tg.deployment.name, need[name]))
             else:
                 live = [n for n, st in jobs.items() if n not in pending and st in (Status.FIREABLE, Status.RUNNING)]
                 if live:
@@ -378,7 +381,7 @@ async def stacked_history(force_unstacked=False):
                     for loc in alloc.locations:
                         l = loc
                         while l is not None:
-                            used[l.name] = used.get(l.name, 0.0) + 1.0
+                            used[l.name] = used.get(l.name, 0.0) + (1.0 if slot_mode else float(need[n]))
                             l = l.wraps if stacked_flag.get(l.name, False) else None
             for lname, u in used.items():
                 if u > caps[lname] + 1e-9:
@@ -401,6 +404,12 @@ async def stacked_history(force_unstacked=False):
 
 
 async def search(n):
+    if os.environ.get("VERIF_PROPERTY", "C11") == "C10":
+        # on which storage of a location a job directory is booked (contracts/HW.py)
+        import HW
+        bad = HW.check_lookup(max(200, 10 * n))
+        if bad:
+            return bad
     for _ in range(3):
         bad = await real_usage_history()
         if bad:
